@@ -6,5 +6,6 @@ CONSTANTS
   Paths = {"a", "b"}
   DEV_GlobalPrecision = TRUE
   DEV_AccumulatingRoot = FALSE
+    DEV_NoTruncate = FALSE
 VIEW View
 PROPERTY PropOwnInputs
